@@ -308,7 +308,11 @@ func genEncryptionKeyResponse(shareSecret, publicKey, verifyToken []byte) (erp p
 		err = fmt.Errorf("decode public key fail: %v", err)
 		return
 	}
-	rsaKey := iPK.(*rsa.PublicKey)
+	rsaKey, ok := iPK.(*rsa.PublicKey)
+	if !ok {
+		err = fmt.Errorf("decode public key fail: the server sent a %T, not an RSA key", iPK)
+		return
+	}
 	cryptPK, err := rsa.EncryptPKCS1v15(rand.Reader, rsaKey, shareSecret)
 	if err != nil {
 		err = fmt.Errorf("encryption share secret fail: %v", err)
